@@ -140,10 +140,13 @@ def chunks(tier, props, seed=0):
                 inserts.append(dict(prog=name, b=b, op="insert", lens=list(lens[:3]), sp=["\n"]))
     for name in progs:
         nb = len(boundaries(name))
-        step = (8 if name == "zoo.c" else 3) if tier == "quick" else 1
+        step = {"zoo.c": 8, "fn.c": 2}.get(name, 1) if tier == "quick" else 1
         for b in range(1, nb - 1, step):
             inserts.append(dict(prog=name, b=b, op="replace", lens=list(lens)))
-    random.Random(seed).shuffle(inserts)
+    # seeded order; chunks of the small programs (cheap paths) tend to come first so that a budget-limited run reaches more
+    rnd = random.Random(seed)
+    weight = {"ty.h": 1.0, "fn.c": 1.6, "gl.c": 1.6, "pp.c": 1.6, "zoo.c": 4.0}
+    inserts.sort(key=lambda c: rnd.random() * weight.get(c["prog"], 2.0))
     junk = []
     for name in progs:
         for g in range(0, len(JUNK), 6):
